@@ -267,7 +267,12 @@ impl Dictionary {
         }
         self.data.connector.map_connection_ids(&mapper);
         self.data.unk_handler.map_connection_ids(&mapper);
-        self.data.mapper = Some(mapper);
+        // Keeps the mapping from the original ids so that user lexicons loaded later are
+        // translated through every mapping applied so far.
+        self.data.mapper = Some(match self.data.mapper.take() {
+            Some(prev) => prev.compose(&mapper),
+            None => mapper,
+        });
         Ok(self)
     }
 }
